@@ -342,7 +342,14 @@ fn check_tree(rep: &mut Report, case: u64, world: &World, shape: &Shape, ik: usi
         None => rep.inconclusive("tweak-out-of-range"),
     }
     // the address is the encoding of that scriptPubKey on every network
-    match guarded(std::panic::AssertUnwindSafe(|| [bitcoin::Network::Bitcoin, bitcoin::Network::Testnet, bitcoin::Network::Regtest].map(|n| tr.address(n).script_pubkey().to_bytes()))) {
+    // (asked of a freshly parsed object first: nothing has been computed or cached on it yet)
+    match guarded(std::panic::AssertUnwindSafe(|| {
+        let cold = Tr::<Dk>::from_str(&s).ok();
+        let first = cold.as_ref().map(|c| c.address(bitcoin::Network::Bitcoin).script_pubkey().to_bytes()).unwrap_or_else(|| spk.clone());
+        let again = cold.as_ref().map(|c| c.address(bitcoin::Network::Bitcoin).script_pubkey().to_bytes()).unwrap_or_else(|| spk.clone());
+        let warm = [bitcoin::Network::Testnet, bitcoin::Network::Regtest].map(|n| tr.address(n).script_pubkey().to_bytes());
+        [first, again, warm[0].clone(), warm[1].clone()]
+    })) {
         Ok(a) => {
             if a.iter().any(|x| *x != spk) {
                 rep.violation(case, format!("C15:address:{}", how), format!("address encodes {} but the scriptPubKey is {}: {}", hex(&a[0]), hex(&spk), brief()));
